@@ -838,6 +838,17 @@ func (U *Universe) preRegister() {
 	U.sliceSort(types.Typ[types.String])
 	U.sliceSort(types.Universe.Lookup("any").Type())
 	U.derefHeap(types.Universe.Lookup("any").Type())
+	// reflect.Value slices (MapKeys) and their sorted form
+	for _, imp := range U.P.Bexpr.Pkg.Imports() {
+		if imp.Path() == "reflect" {
+			if o := imp.Scope().Lookup("Value"); o != nil {
+				srt := U.sliceSort(o.Type())
+				sym := "sortedBy." + sortTag(srt)
+				U.Sigs[sym] = &Sig{Name: sym, Args: []string{srt, "Fn"}, Res: srt}
+				U.extra = append(U.extra, fmt.Sprintf("(declare-fun %s (%s Fn) %s)", sym, srt, srt))
+			}
+		}
+	}
 	// json.Number flows through interfaces in evaluateMatchExpression
 	for _, imp := range U.P.Bexpr.Pkg.Imports() {
 		if imp.Path() == "encoding/json" {
